@@ -18,7 +18,7 @@ fn ids(v: &[usize]) -> String {
     format!("[{}]", v.iter().map(|x| x.to_string()).collect::<Vec<_>>().join(","))
 }
 
-/// `leaf(i)`: node i is a memoc node (readable by `read` ops only)
+/// `leaf(i)`: node i is a memoc / memoh node or a field of a struct signal (not readable / writable from bodies)
 fn reads_ok(defs: &[Def], leaf: &dyn Fn(usize) -> bool, own: usize, e: &Expr, memo: bool) -> bool {
     let reads_ok = |defs: &[Def], own: usize, e: &Expr, memo: bool| reads_ok(defs, leaf, own, e, memo);
     match e {
@@ -29,7 +29,7 @@ fn reads_ok(defs: &[Def], leaf: &dyn Fn(usize) -> bool, own: usize, e: &Expr, me
         Expr::Add(a, b) | Expr::Seq(a, b) => reads_ok(defs, own, a, memo) && reads_ok(defs, own, b, memo),
         Expr::Mulc(_, a) => reads_ok(defs, own, a, memo),
         Expr::Ite(c, t, f) => reads_ok(defs, own, c, memo) && reads_ok(defs, own, t, memo) && reads_ok(defs, own, f, memo),
-        Expr::Wr(i, a) => !memo && matches!(defs.get(*i), Some(Def::Sig(_))) && reads_ok(defs, own, a, memo),
+        Expr::Wr(i, a) => !memo && !leaf(*i) && matches!(defs.get(*i), Some(Def::Sig(_))) && reads_ok(defs, own, a, memo),
         Expr::Unt(a) => all_untracked(a) && reads_ok(defs, own, a, memo),
     }
 }
@@ -133,6 +133,60 @@ impl Runner {
                 c.set_wrap(w);
                 "ok".into()
             }
+            ["oncl"] => {
+                c.set_oncl();
+                "ok".into()
+            }
+            ["ssig", a, b] => {
+                let (Ok(a), Ok(b)) = (a.parse::<i64>(), b.parse::<i64>()) else { return "bad-op".into() };
+                c.define_struct(a, b);
+                match mode {
+                    Mode::C02 => format!("ok ready={}", ids(&c.ready())),
+                    _ => "ok".into(),
+                }
+            }
+            ["slice", f, g, s] => {
+                let (Ok(f), Ok(g), Ok(s)) = (f.parse::<usize>(), g.parse::<usize>(), s.parse::<usize>()) else {
+                    return "bad-op".into();
+                };
+                if !c.define_slice(f, g, s) {
+                    return "bad-op".into();
+                }
+                match mode {
+                    Mode::C02 => {
+                        c.take_wakes();
+                        format!("ok ready={}", ids(&c.ready()))
+                    }
+                    _ => "ok".into(),
+                }
+            }
+            ["sset", id, v] => {
+                let (Ok(id), Ok(v)) = (id.parse::<usize>(), v.parse::<i64>()) else { return "bad-op".into() };
+                let Some(target) = self.case.as_mut().unwrap().sset(id, v) else { return "bad-op".into() };
+                self.written = Some(target);
+                let r = self.after(mode, None);
+                self.written = None;
+                r
+            }
+            ["memoh", rest @ ..] => {
+                let mut pos = 0;
+                let Some(e) = parse_expr(rest, &mut pos) else { return "bad-op".into() };
+                let ok = {
+                    let g = c.sh.lock().unwrap();
+                    pos == rest.len() && reads_ok(&g.defs, &|i| g.is_leaf(i) || g.is_field(i), g.defs.len(), &e, true)
+                };
+                if !ok {
+                    return "bad-op".into();
+                }
+                c.define_memoc(0, e);
+                match mode {
+                    Mode::C02 => {
+                        c.take_wakes();
+                        format!("ok ready={}", ids(&c.ready()))
+                    }
+                    _ => "ok".into(),
+                }
+            }
             ["acc", n] => {
                 let Ok(n) = n.parse::<usize>() else { return "bad-op".into() };
                 c.set_acc(n);
@@ -144,7 +198,7 @@ impl Runner {
                 let Some(e) = parse_expr(rest, &mut pos) else { return "bad-op".into() };
                 let ok = {
                     let g = c.sh.lock().unwrap();
-                    pos == rest.len() && coarse_fn(k).is_some() && reads_ok(&g.defs, &|i| g.is_leaf(i), g.defs.len(), &e, true)
+                    pos == rest.len() && k != 0 && coarse_fn(k).is_some() && reads_ok(&g.defs, &|i| g.is_leaf(i) || g.is_field(i), g.defs.len(), &e, true)
                 };
                 if !ok {
                     return "bad-op".into();
@@ -164,7 +218,7 @@ impl Runner {
                 let Some(e) = parse_expr(rest, &mut pos) else { return "bad-op".into() };
                 let ok = {
                     let g = c.sh.lock().unwrap();
-                    pos == rest.len() && (1..=8).contains(&k) && reads_ok(&g.defs, &|i| g.is_leaf(i), g.defs.len(), &e, true)
+                    pos == rest.len() && (1..=8).contains(&k) && reads_ok(&g.defs, &|i| g.is_leaf(i) || g.is_field(i), g.defs.len(), &e, true)
                 };
                 if !ok {
                     return "bad-op".into();
@@ -184,26 +238,47 @@ impl Runner {
                 c.root_op(w[0]);
                 self.after(mode, None)
             }
-            ["sig", ..] | ["memo", ..] | ["eff", ..] | ["reff", ..] | ["seff", ..] | ["ieff", ..] | ["weff", ..] | ["wieff", ..] => {
-                let Some(d) = parse_def(&w) else { return "bad-op".into() };
-                let (n, ok) = {
+            ["sig", ..] | ["memo", ..] | ["eff", ..] | ["reff", ..] | ["seff", ..] | ["ieff", ..] | ["weff", ..] | ["wieff", ..]
+            | ["wseff", ..] | ["wsieff", ..] | ["rieff", ..] | ["imeff", ..] => {
+                // watch kinds: optional `h<id>` = the signal the handler reads
+                let watch = matches!(w[0], "weff" | "wieff" | "wseff" | "wsieff");
+                let (hread, w2): (Option<usize>, Vec<&str>) = match w.get(1) {
+                    Some(t) if watch && t.starts_with('h') => {
+                        let Ok(h) = t[1..].parse::<usize>() else { return "bad-op".into() };
+                        let mut v = vec![w[0]];
+                        v.extend_from_slice(&w[2..]);
+                        (Some(h), v)
+                    }
+                    _ => (None, w.clone()),
+                };
+                let Some(d) = parse_def(&w2) else { return "bad-op".into() };
+                let ok = {
                     let g = c.sh.lock().unwrap();
                     let n = g.defs.len();
-                    let ok = match &d {
+                    let blocked = |i: usize| g.is_leaf(i) || g.is_field(i);
+                    let body_ok = match &d {
                         Def::Sig(_) => true,
-                        Def::Memo(b) => reads_ok(&g.defs, &|i| g.is_leaf(i), n, b, true),
-                        Def::Eff(b) => reads_ok(&g.defs, &|i| g.is_leaf(i), n, b, false),
+                        Def::Memo(b) => reads_ok(&g.defs, &blocked, n, b, true),
+                        Def::Eff(b) => reads_ok(&g.defs, &blocked, n, b, false) && (w[0] != "imeff" || imm_ok(&g.defs, b)),
                         Def::Key(..) => false,
                     };
-                    (n, ok)
+                    // the handler reads a plain signal
+                    let h_ok = hread.map(|h| h < n && matches!(g.defs.get(h), Some(Def::Sig(_))) && !g.is_field(h)).unwrap_or(true);
+                    body_ok && h_ok
                 };
-                let _ = n;
                 if !ok {
                     return "bad-op".into();
                 }
-                if w[0] == "reff" {
+                if matches!(w[0], "reff" | "rieff" | "imeff") {
                     // the body runs synchronously at creation
-                    c.define_kind(d, EffKind::Render);
+                    c.define_kind(
+                        d,
+                        match w[0] {
+                            "reff" => EffKind::Render,
+                            "rieff" => EffKind::RenderIso,
+                            _ => EffKind::Immediate,
+                        },
+                    );
                     return match mode {
                         Mode::C02 => format!("ok {}", self.after(mode, None)),
                         Mode::C09 => self.after(mode, None),
@@ -216,8 +291,10 @@ impl Runner {
                 match w[0] {
                     "seff" => c.define_kind(d, EffKind::Sync),
                     "ieff" => c.define_kind(d, EffKind::Isomorphic),
-                    "weff" => c.define_kind(d, EffKind::Watch(false)),
-                    "wieff" => c.define_kind(d, EffKind::Watch(true)),
+                    "weff" => c.define_watch(d, EffKind::Watch { immediate: false, sync: false }, hread),
+                    "wieff" => c.define_watch(d, EffKind::Watch { immediate: true, sync: false }, hread),
+                    "wseff" => c.define_watch(d, EffKind::Watch { immediate: false, sync: true }, hread),
+                    "wsieff" => c.define_watch(d, EffKind::Watch { immediate: true, sync: true }, hread),
                     _ => c.define(d),
                 }
                 match mode {
@@ -247,7 +324,7 @@ impl Runner {
             ["poll", i] => {
                 let Ok(i) = i.parse::<usize>() else { return "bad-op".into() };
                 let polled = sched::poll_nth_ready(i);
-                let eff = c.effect_ids();
+                let eff = c.task_ids();
                 let polled = polled.and_then(|t| eff.get(t).copied());
                 let s = self.after(mode, None);
                 match mode {
@@ -270,9 +347,24 @@ impl Runner {
         }
     }
 
+    /// the op's output line; a failure seen by the instrumentation inside the real closures (comparator arguments,
+    /// `prev` argument of memo closures, cleanup bookkeeping) takes precedence over the mode's own verdict
     fn after(&mut self, mode: Mode, read: Option<(usize, i64)>) -> String {
+        let out = self.after_inner(mode, read);
+        let bad = self.case.as_ref().unwrap().sh.lock().unwrap().bad.take();
+        match bad {
+            Some(b) => format!("{} ## fail {b}", out.split(" ## ").next().unwrap_or("")),
+            None => out,
+        }
+    }
+
+    fn after_inner(&mut self, mode: Mode, read: Option<(usize, i64)>) -> String {
         let c = self.case.as_ref().unwrap();
         let log = c.drain_log();
+        let (cl_calls, oncl, imm) = {
+            let mut g = c.sh.lock().unwrap();
+            (std::mem::take(&mut g.cl_calls), g.oncl, g.imm.clone())
+        };
         match mode {
             Mode::C01 => match read {
                 Some((id, v)) => {
@@ -303,7 +395,7 @@ impl Runner {
                 if let Some(r) = log.iter().find(|r| r.glitch.is_some() && matches!(defs.get(r.node), Some(Def::Eff(b)) if !has_write(b))) {
                     verdict = Some(format!("fail glitch effect {} read {:?}", r.node, r.glitch));
                 }
-                let eff = c.effect_ids();
+                let eff = c.task_ids();
                 let woke: Vec<usize> = c.take_wakes().into_iter().filter_map(|t| eff.get(t).copied()).collect();
                 // lifecycle oracles: nothing runs after disposal or while paused
                 for r in &log {
@@ -352,7 +444,20 @@ impl Runner {
                         verdict = Some(format!("fail wake-order after set {sig}: woke {:?}", woke));
                     }
                 }
-                let base = format!("{} woke={} ready={}", Self::effect_runs(&defs, &log), ids(&woke), ids(&c.ready()));
+                // canonical order: runs of immediate effects (made inside notifications, in notification order) are listed
+                // after the others, by node id
+                let mut ordered: Vec<RunRec> = log.iter().filter(|r| !imm.get(r.node).copied().unwrap_or(false)).cloned().collect();
+                let mut imms: Vec<RunRec> = log.iter().filter(|r| imm.get(r.node).copied().unwrap_or(false)).cloned().collect();
+                imms.sort_by_key(|r| r.node);
+                ordered.extend(imms);
+                let mut base = format!("{} woke={} ready={}", Self::effect_runs(&defs, &ordered), ids(&woke), ids(&c.ready()));
+                if oncl {
+                    let mut counts: std::collections::BTreeMap<usize, usize> = Default::default();
+                    for n in &cl_calls {
+                        *counts.entry(*n).or_default() += 1;
+                    }
+                    base += &format!(" cl={}", counts.iter().map(|(k, v)| format!("{k}:{v}")).collect::<Vec<_>>().join(","));
+                }
                 match verdict {
                     Some(v) => format!("{base} ## {v}"),
                     None => base,
